@@ -48,6 +48,10 @@ type RegionsCase struct {
 	Gran     string    `json:"granularity"` // op | stmt
 	Strategy string    `json:"strategy,omitempty"`
 	Schedule []int     `json:"schedule"` // the caller chosen at every scheduling point
+	// Spare capacity of the slices handed to NewIndex (a caller's reusable buffer, a
+	// truncated longer slice): the content beyond len is the caller's business.
+	StartsSpare int `json:"starts_spare_cap,omitempty"`
+	EndsSpare   int `json:"ends_spare_cap,omitempty"`
 }
 
 func (rc *RegionsCase) size() int {
@@ -67,6 +71,9 @@ func (rc *RegionsCase) size() int {
 func (rc *RegionsCase) String() string {
 	var b strings.Builder
 	fmt.Fprintf(&b, "starts=%v ends=%v gran=%s ", rc.Starts, rc.Ends, rc.Gran)
+	if rc.StartsSpare > 0 || rc.EndsSpare > 0 {
+		fmt.Fprintf(&b, "spare_cap=%d/%d ", rc.StartsSpare, rc.EndsSpare)
+	}
 	for i, t := range rc.Tasks {
 		fmt.Fprintf(&b, "caller%d[", i)
 		for _, o := range t {
@@ -204,9 +211,17 @@ func execC16Trace(c *Case, choose func(runnable []int, cur int, step int) int) (
 	// Construction, yields disabled.
 	var idx RegIndex
 	var pan any
+	withSpare := func(x []int, spare int) []int {
+		y := make([]int, len(x), len(x)+spare)
+		copy(y, x)
+		for i, full := len(x), y[:cap(y)]; i < len(full); i++ {
+			full[i] = 424242 + i // what lies beyond len is not part of the argument
+		}
+		return y
+	}
 	func() {
 		defer func() { pan = recover() }()
-		idx = newIndex(rc.Starts, rc.Ends)
+		idx = newIndex(withSpare(rc.Starts, rc.StartsSpare), withSpare(rc.Ends, rc.EndsSpare))
 	}()
 	if len(rc.Starts) != len(rc.Ends) {
 		if pan == nil {
@@ -421,6 +436,13 @@ func shrinkRegions(c *Case, try func(*Case) bool) bool {
 	}
 	any := false
 	rc := func() *RegionsCase { return c.Regions }
+	if rc().StartsSpare > 0 || rc().EndsSpare > 0 {
+		d := c.Clone()
+		d.Regions.StartsSpare, d.Regions.EndsSpare = 0, 0
+		if try(d) {
+			any = true
+		}
+	}
 	// drop intervals
 	for i := 0; i < len(rc().Starts) && len(rc().Starts) == len(rc().Ends); {
 		d := c.Clone()
@@ -639,6 +661,7 @@ func genRegionsCase(r *core.Rng, gran string) *RegionsCase {
 	maxOps := 8
 	if big {
 		nt = r.Range(2, 4)
+		maxOps = 25 // state that builds up over many calls
 	}
 	for t := 0; t < nt; t++ {
 		var ops []RegOp
@@ -753,6 +776,11 @@ func RunC16(ctx *core.Ctx, r *core.Rng) {
 				rc.Ends = append(rc.Ends, 1)
 			}
 			ctx.Stats.Inc("fault_fired/newindex_unequal_lengths")
+		}
+		if r.Chance(0.3) { // reusable buffers / truncated slices: spare capacity behind the arguments
+			rc.StartsSpare = core.Pick(r, []int{1, 2, len(rc.Starts) + len(rc.Ends), 2*len(rc.Starts) + 3, 64})
+			rc.EndsSpare = core.Pick(r, []int{0, 1, 2, len(rc.Ends) + 3, 64})
+			ctx.Stats.Inc("fault_fired/arguments_with_spare_capacity")
 		}
 		strat, choose := genChooser(r, len(rc.Tasks))
 		rc.Strategy = strat
